@@ -127,6 +127,17 @@ def auth_cases(tier):
                 for b in range(128):
                     m = bytearray(hdr); m[b // 8] ^= 1 << (b % 8)
                     out.append(('beltKWPUnwrap', dict(base, header=bytes(m)), x, 'header', b))
+                # intact token, right key, but the caller expects the zero header (NULL / 16 zero octets)
+                out.append(('beltKWPUnwrap', dict(base, header=None), x, 'header:=NULL', 0))
+                out.append(('beltKWPUnwrap', dict(base, header=bytes(16)), x, 'header:=0', 0))
+            else:
+                # token wrapped under the zero header, presented with a non-zero header
+                out.append(('beltKWPUnwrap', dict(base, header=bytes(range(1, 17))), x, 'header:=nonzero', 0))
+                out.append(('beltKWPUnwrap', dict(base, header=bytes(15) + b'\x80'), x, 'header:=nonzero', 1))
+            # wrong key: every key octet altered once (the decryption is then unauthenticated garbage: see auth_case)
+            for j in range(0, 32, 1 if tier == 'thorough' else 5):
+                kk = bytearray(K); kk[j] ^= 1 << (j % 8)
+                out.append(('beltKWPUnwrap', dict(base, key=bytes(kk)), x, 'key', 8 * j + j % 8))
     for m in corpora.MODULES:
         try:
             mod = __import__(m)
@@ -147,6 +158,17 @@ def auth_case(item):
             for i in range(0, len(plain) - 7):
                 if plain[i:i + 8] in v:
                     return 'unwrap failed with %#x but output %s holds plaintext octets [%d,%d)' % (res['ret'], name, i, i + 8)
+    # the unauthenticated decryption of what was presented must not be released either (belt-kwp: the wide-block decryption of
+    # the token; for the AEAD modes it differs from the true plaintext only around the altered bit, which the scan above covers)
+    if fname == 'beltKWPUnwrap':
+        import belt as R
+        un = R.wbl_decr(case['key'], case['src'])[:-16]
+        for name, v in res.items():
+            if isinstance(v, bytes):
+                for i in range(0, len(un) - 7):
+                    w = un[i:i + 8]
+                    if len(set(w)) > 3 and w in v:
+                        return 'unwrap failed with %#x but output %s holds octets [%d,%d) of the unauthenticated decryption of the token' % (res['ret'], name, i, i + 8)
     return None
 
 def sweep_case(item):
